@@ -132,29 +132,62 @@ theorem fits_append {σ : Type} (k : Sink) (cap used rd : Nat) (o : List Nat) (s
     show used + unitsOfList k (o ++ t.out) + replRoom k ≤ cap
     rw [unitsOfList_append]; omega
 
+/-- what the scheme guarantees on top of `Fits`: a call that ends with `InputEmpty` before the end of
+the stream leaves the invariant of the induction intact (so the next call may go on in what is
+left of the destination, even if that is less than `minCap`), and it does not stop before its first
+byte unless the space asked for that byte is missing -/
+def FitsX (F : Fam) (k : Sink) (I : F.σ → Prop) (cap used : Nat) (last : Bool) (s : F.σ) (src : List Nat)
+    (r : CallRes F.σ) : Prop :=
+  Fits k cap used r ∧
+  (r.res = .inputEmpty → last = false →
+    used + unitsOfList k r.out + eofRoom F k r.st ≤ cap ∧ F.pend r.st = none ∧ I r.st) ∧
+  (r.res = .outputFull → r.read = 0 → ∀ b tl, src = b :: tl → cap < used + F.need k s b)
+
+theorem fitsX_append (F : Fam) (k : Sink) (I : F.σ → Prop) (cap used : Nat) (last : Bool) (s s1 : F.σ)
+    (b : Nat) (tl o : List Nat) (t : CallRes F.σ)
+    (h : FitsX F k I cap (used + unitsOfList k o) last s1 tl t) :
+    FitsX F k I cap used last s (b :: tl) ⟨t.res, t.read + 1, o ++ t.out, t.st, t.stopNeed⟩ := by
+  obtain ⟨h1, h2, _⟩ := h
+  refine ⟨fits_append k cap used _ o _ t h1, ?_, ?_⟩
+  · intro hres hl
+    obtain ⟨h3, h4, h5⟩ := h2 hres hl
+    refine ⟨?_, h4, h5⟩
+    show used + unitsOfList k (o ++ t.out) + eofRoom F k t.st ≤ cap
+    rw [unitsOfList_append]; omega
+  · intro _ hread
+    exact absurd hread (Nat.succ_ne_zero _)
+
 /-- the main loop under the scheme: from a flushed state, with `used` units written and the room
 the state needs still free, some budget makes the rest of the call fit -/
-theorem run_exists (F : Fam) (k : Sink) (I : F.σ → Prop) (L : Laws F) (S : StopLaw F k I) (cap : Nat)
+theorem run_exists_x (F : Fam) (k : Sink) (I : F.σ → Prop) (L : Laws F) (S : StopLaw F k I) (cap : Nat)
     (last : Bool) :
     ∀ (src : List Nat) (s : F.σ) (used : Nat), I s → F.pend s = none → (∀ b ∈ src, b < 256) →
       used + eofRoom F k s ≤ cap →
-      ∃ n : Option Nat, Fits k cap used (run F k last s src (budgetOf n)) := by
+      ∃ n : Option Nat, FitsX F k I cap used last s src (run F k last s src (budgetOf n)) := by
   intro src
   induction src with
   | nil =>
-    intro s used _ _ _ hroom
+    intro s used hi hp _ hroom
     have hused : used ≤ cap := by omega
+    have hnil : ∀ (sn : Nat), FitsX F k I cap used last s [] ⟨.inputEmpty, 0, [], s, sn⟩ := by
+      intro sn
+      refine ⟨fits_inputEmpty k cap used 0 sn s hused, ?_, ?_⟩
+      · intro _ _
+        refine ⟨?_, hp, hi⟩
+        show used + unitsOfList k [] + eofRoom F k s ≤ cap
+        rw [units_nil]; omega
+      · intro h; cases h
     cases last with
     | false =>
       refine ⟨none, ?_⟩
       simp only [run, Bool.false_eq_true, if_false]
-      exact fits_inputEmpty k cap used 0 0 s hused
+      exact hnil 0
     | true =>
       cases he : F.eof s with
       | none =>
         refine ⟨none, ?_⟩
         simp only [run, if_true, he]
-        exact fits_inputEmpty k cap used 0 0 s hused
+        exact hnil 0
       | some p =>
         obtain ⟨e, s'⟩ := p
         by_cases hlt : F.eofNeed k < replRoom k
@@ -163,16 +196,19 @@ theorem run_exists (F : Fam) (k : Sink) (I : F.σ → Prop) (L : Laws F) (S : St
             unfold eofRoom; rw [he]; simp [hlt]
           refine ⟨none, ?_⟩
           simp only [run, if_true, he, budgetOf, Budget.isZero, Bool.false_eq_true, if_false]
+          refine ⟨?_, (by intro h; cases h), (by intro h; cases h)⟩
           apply fits_malformed
           rw [units_nil]; omega
         · by_cases hfree : used + F.eofNeed k ≤ cap
           · refine ⟨none, ?_⟩
             simp only [run, if_true, he, budgetOf, Budget.isZero, Bool.false_eq_true, if_false]
+            refine ⟨?_, (by intro h; cases h), (by intro h; cases h)⟩
             apply fits_malformed
             rw [units_nil]; omega
           · refine ⟨some 0, ?_⟩
             simp only [run, if_true, he, budgetOf, Budget.isZero, beq_self_eq_true]
-            exact fits_full k cap used 0 _ s hused (by omega)
+            refine ⟨fits_full k cap used 0 _ s hused (by omega), (by intro h; cases h), ?_⟩
+            intro _ _ b tl h; cases h
   | cons b tl ih =>
     intro s used hi hp hb hroom
     have hb0 : b < 256 := hb b (List.mem_cons_self ..)
@@ -184,6 +220,7 @@ theorem run_exists (F : Fam) (k : Sink) (I : F.σ → Prop) (L : Laws F) (S : St
         refine ⟨none, ?_⟩
         rw [run]
         simp only [budgetOf, stopHere, hE]
+        refine ⟨?_, (by intro h; cases h), (by intro h; cases h)⟩
         apply fits_malformed
         omega
       | none =>
@@ -193,11 +230,21 @@ theorem run_exists (F : Fam) (k : Sink) (I : F.σ → Prop) (L : Laws F) (S : St
         refine ⟨n.map (· + 1), ?_⟩
         rw [run, budgetOf_succ_stopHere]
         simp only [hE, budgetOf_succ_dec]
-        exact fits_append k cap used _ _ _ _ hfit
+        exact fitsX_append F k I cap used last s _ b tl _ _ hfit
     · refine ⟨some 0, ?_⟩
       rw [run]
       simp only [budgetOf, stopHere, if_true]
-      exact fits_full k cap used 0 _ s (by omega) (by omega)
+      refine ⟨fits_full k cap used 0 _ s (by omega) (by omega), (by intro h; cases h), ?_⟩
+      intro _ _ b' tl' h
+      cases h
+      omega
+
+theorem run_exists (F : Fam) (k : Sink) (I : F.σ → Prop) (L : Laws F) (S : StopLaw F k I) (cap : Nat)
+    (last : Bool) (src : List Nat) (s : F.σ) (used : Nat) (hi : I s) (hp : F.pend s = none)
+    (hb : ∀ b ∈ src, b < 256) (hroom : used + eofRoom F k s ≤ cap) :
+    ∃ n : Option Nat, Fits k cap used (run F k last s src (budgetOf n)) := by
+  obtain ⟨n, h, _⟩ := run_exists_x F k I L S cap last src s used hi hp hb hroom
+  exact ⟨n, h⟩
 
 theorem admissible_of_fits (F : Fam) (k : Sink) (cap : Nat) (r : CallRes F.σ) (h : Fits k cap 0 r) :
     Admissible F k cap r := by
@@ -230,6 +277,78 @@ theorem exists_admissible (F : Fam) (k : Sink) (I : F.σ → Prop) (L : Laws F) 
     unfold Model.call
     simp only [hp, budgetOf_succ_isZero, Bool.false_eq_true, if_false, budgetOf_succ_dec]
     exact admissible_of_fits F k cap _ (fits_append k cap 0 _ _ _ _ hfit)
+
+/-- what a call under the scheme guarantees on top of `Admissible` (see `FitsX`) -/
+def CallX (F : Fam) (k : Sink) (I : F.σ → Prop) (cap : Nat) (last : Bool) (s : F.σ) (src : List Nat)
+    (r : CallRes F.σ) : Prop :=
+  Admissible F k cap r ∧
+  (r.res = .inputEmpty → last = false →
+    unitsOfList k r.out + eofRoom F k r.st ≤ cap ∧ F.pend r.st = none ∧ I r.st) ∧
+  (F.pend s = none → r.res = .outputFull → r.read = 0 → ∀ b tl, src = b :: tl → cap < F.need k s b)
+
+/-- the call-level statement with what is needed to chain calls into one destination: the capacity
+is at least `minCap`, **or** the state is flushed and the room it needs is free (which is what a
+call that ended with `InputEmpty` leaves behind) -/
+theorem call_exists_x (F : Fam) (k : Sink) (I : F.σ → Prop) (L : Laws F) (S : StopLaw F k I)
+    (s : F.σ) (hi : I s) (src : List Nat) (hb : ∀ b ∈ src, b < 256) (last : Bool) (cap : Nat)
+    (hcap : minCap k ≤ cap ∨ (F.pend s = none ∧ eofRoom F k s ≤ cap)) :
+    ∃ budget, CallX F k I cap last s src (Model.call F k s src last budget) := by
+  cases hp : F.pend s with
+  | none =>
+    have hroom : 0 + eofRoom F k s ≤ cap := by
+      rcases hcap with h | ⟨_, h⟩
+      · have := eofRoom_le F k s
+        have := replRoom_le_minCap k
+        omega
+      · omega
+    obtain ⟨n, h1, h2, h3⟩ := run_exists_x F k I L S cap last src s 0 hi hp hb hroom
+    refine ⟨budgetOf n, ?_⟩
+    unfold Model.call
+    simp only [hp]
+    refine ⟨admissible_of_fits F k cap _ h1, ?_, ?_⟩
+    · intro hres hl
+      obtain ⟨a, b, c⟩ := h2 hres hl
+      exact ⟨by omega, b, c⟩
+    · intro _ hres hread b tl hsrc
+      have := h3 hres hread b tl hsrc
+      omega
+  | some p =>
+    obtain ⟨o, s'⟩ := p
+    have hc : minCap k ≤ cap := by
+      rcases hcap with h | ⟨h, _⟩
+      · exact h
+      · rw [hp] at h; cases h
+    have hfl := S.flush s o s' hi hp
+    obtain ⟨n, h1, h2, _⟩ := run_exists_x F k I L S cap last src s' (0 + unitsOfList k o) (S.inv_pend s o s' hi hp)
+      (L.pend_once s o s' hp) hb (by omega)
+    refine ⟨budgetOf (n.map (· + 1)), ?_⟩
+    unfold Model.call
+    simp only [hp, budgetOf_succ_isZero, Bool.false_eq_true, if_false, budgetOf_succ_dec]
+    refine ⟨admissible_of_fits F k cap _ (fits_append k cap 0 _ _ _ _ h1), ?_, ?_⟩
+    · intro hres hl
+      obtain ⟨a, b, c⟩ := h2 hres hl
+      refine ⟨?_, b, c⟩
+      show unitsOfList k (o ++ _) + eofRoom F k (run F k last s' src (budgetOf n)).st ≤ cap
+      rw [unitsOfList_append]; omega
+    · intro h; rw [hp] at h; cases h
+
+/-- **two calls into one destination** (the shape of the BOM replay of `Decoder`): some budget
+makes a non-last call admissible, and if it ends with `InputEmpty`, some budget makes the next call
+admissible for what is left of the destination — even if that is less than `minCap` -/
+theorem exists_admissible_chain (F : Fam) (k : Sink) (I : F.σ → Prop) (L : Laws F) (S : StopLaw F k I)
+    (s : F.σ) (hi : I s) (src1 src2 : List Nat) (hb1 : ∀ b ∈ src1, b < 256) (hb2 : ∀ b ∈ src2, b < 256)
+    (last : Bool) (cap : Nat) (hcap : minCap k ≤ cap) :
+    ∃ b1, Admissible F k cap (Model.call F k s src1 false b1) ∧
+      ((Model.call F k s src1 false b1).res = .inputEmpty →
+        ∃ b2, Admissible F k (cap - unitsOfList k (Model.call F k s src1 false b1).out)
+          (Model.call F k (Model.call F k s src1 false b1).st src2 last b2)) := by
+  obtain ⟨b1, h1, h2, _⟩ := call_exists_x F k I L S s hi src1 hb1 false cap (Or.inl hcap)
+  refine ⟨b1, h1, ?_⟩
+  intro hres
+  obtain ⟨a, b, c⟩ := h2 hres rfl
+  obtain ⟨b2, h3, _⟩ := call_exists_x F k I L S _ c src2 hb2 last
+    (cap - unitsOfList k (Model.call F k s src1 false b1).out) (Or.inr ⟨b, by omega⟩)
+  exact ⟨b2, h3⟩
 
 /-! ## the law for every family -/
 
